@@ -74,6 +74,21 @@ fn main() {
 struct Extract<'tcx> {
     tcx: TyCtxt<'tcx>,
     adts_seen: BTreeMap<String, DefId>,
+    cur_owner: Option<DefId>,
+}
+
+trait HasParamCompat {
+    fn has_non_region_param_compat(&self) -> bool;
+}
+impl<'tcx> HasParamCompat for mir::Const<'tcx> {
+    fn has_non_region_param_compat(&self) -> bool {
+        use rustc_middle::ty::TypeVisitableExt;
+        match self {
+            mir::Const::Unevaluated(u, t) => u.args.has_non_region_param() || t.has_non_region_param(),
+            mir::Const::Ty(t, c) => t.has_non_region_param() || c.has_non_region_param(),
+            mir::Const::Val(_, t) => t.has_non_region_param(),
+        }
+    }
 }
 
 fn s(x: impl Into<String>) -> J {
@@ -82,7 +97,7 @@ fn s(x: impl Into<String>) -> J {
 
 impl<'tcx> Extract<'tcx> {
     fn new(tcx: TyCtxt<'tcx>) -> Self {
-        Extract { tcx, adts_seen: BTreeMap::new() }
+        Extract { tcx, adts_seen: BTreeMap::new(), cur_owner: None }
     }
 
     fn path(&self, d: DefId) -> String {
@@ -467,6 +482,7 @@ impl<'tcx> Extract<'tcx> {
     fn body(&mut self, ldid: LocalDefId, kind: DefKind) -> J {
         let tcx = self.tcx;
         let did = ldid.to_def_id();
+        self.cur_owner = Some(did);
         let body: &Body<'tcx> = tcx.optimized_mir(did);
         let mut o: Vec<(&'static str, J)> = Vec::new();
         o.push(("path", s(self.path(did))));
@@ -745,6 +761,32 @@ impl<'tcx> Extract<'tcx> {
                                     let all = a.inspect_with_uninit_and_ptr_outside_interpreter(start..a.len());
                                     o.push(("bytes", J::Arr(all.iter().map(|b| J::Int(*b as i128)).collect())));
                                     rendered = true;
+                                }
+                            }
+                        }
+                    }
+                }
+            }
+        }
+        // promoted constants: look into the promoted body for the enum variant / scalar it materialises,
+        // e.g. `&LogicalLineType::AsmInstruction` (works in generic bodies and closures, no evaluation needed)
+        if let mir::Const::Unevaluated(uv, _) = c.const_ {
+            if let Some(pidx) = uv.promoted {
+                if uv.def.is_local() {
+                    let proms = tcx.promoted_mir(uv.def);
+                    if let Some(pb) = proms.get(pidx) {
+                        for bbdata in pb.basic_blocks.iter() {
+                            for st in bbdata.statements.iter() {
+                                if let StatementKind::Assign(bx) = &st.kind {
+                                    if let Rvalue::Aggregate(kind, ops) = &bx.1 {
+                                        if let AggregateKind::Adt(d, vi, _, _, _) = &**kind {
+                                            let adt = tcx.adt_def(*d);
+                                            if adt.is_enum() && ops.is_empty() {
+                                                o.push(("enum_variant", s(adt.variant(*vi).name.to_string())));
+                                                o.push(("enum_adt", s(self.path(*d))));
+                                            }
+                                        }
+                                    }
                                 }
                             }
                         }
